@@ -478,6 +478,125 @@ def check_operators(prog, ctx):
     ctx.minimum(rid, 50, "dunder table of BlockBase and BlockVector")
 
 
+def check_arithmetic(prog, ctx):
+    """R08.6 by abstract evaluation: the arithmetic dunders of abelian arrays and block vectors, on operands with different stored
+    sectors, give the block form of the dense result (a missing block is a zero block) or raise; in-place forms return the operand."""
+    from engine.absarray import STok, shaped_evaluator
+    from engine.absops import PYERR, TABLES, Spec, World
+
+    rid = "R08.6"
+    w = World(prog)
+    n = 0
+    bad = {}
+    sym = "U1"
+    t = TABLES[sym]
+
+    def arr(tag, drop):
+        # three sectors (c, c): `alternate` keeps the outer two, `first` the last two, so each side has a sector the other lacks
+        return Spec(sym, (False, True), 0, (t[0], t[0]), drop=drop, tag=tag).build(w)
+
+    def vec(tag, keep):
+        return Obj(prog.cls("BlockVector"), {"_blocks": {c: STok((tag, c), (d,)) for c, d in list(t[0].items())[keep]}})
+
+    def nz(d):
+        return {k: repr(v) for k, v in d.items() if not (isinstance(v, tuple) and v and v[0] == "zeros")}
+
+    def ref(op, L, R):
+        out = {}
+        for k in sorted(set(L) | set(R), key=repr):
+            l, r = L.get(k), R.get(k)
+            if op == "add":
+                v = (l + r) if (l is not None and r is not None) else (l if l is not None else r)
+            elif op == "sub":
+                v = (l - r) if (l is not None and r is not None) else (l if l is not None else -r)
+            elif op == "mul":
+                v = (l * r) if (l is not None and r is not None) else None
+            elif op == "truediv":
+                if l is None:
+                    v = None
+                elif r is None:
+                    return None  # division by a zero block: only raising is acceptable
+                else:
+                    v = l / r
+            if v is not None:
+                out[k] = v.term
+        return out
+
+    kinds = {"array": (lambda: arr("x", "none"), [("same sectors", lambda: arr("y", "none")), ("fewer sectors", lambda: arr("y", "alternate")),
+                                                  ("other sectors", lambda: arr("y", "first"))], lambda: arr("x", "alternate")),
+             "vector": (lambda: vec("x", slice(None)), [("same sectors", lambda: vec("y", slice(None))), ("fewer sectors", lambda: vec("y", slice(1, None)))],
+                        lambda: vec("x", slice(0, -1)))}
+    for kind, (full, others, partial) in kinds.items():
+        for dn, op in (("__add__", "add"), ("__sub__", "sub"), ("__mul__", "mul"), ("__truediv__", "truediv"),
+                       ("__iadd__", "add"), ("__isub__", "sub"), ("__imul__", "mul"), ("__itruediv__", "truediv")):
+            for lname, mk_l in (("all sectors", full), ("some sectors", partial)):
+                for rname, mk_r in others:
+                    ev = shaped_evaluator(prog)
+                    x, y = mk_l(), mk_r()
+                    m = prog.lookup_method(x.cls, dn)
+                    if m is None:
+                        continue
+                    L = dict(x.fields["_blocks"])
+                    R = dict(y.fields["_blocks"])
+                    want = ref(op, L, R)
+                    where = f"{kind} {dn}: left with {lname}, right with {rname}"
+                    n += 1
+                    try:
+                        r = ev.call(m, [y], {}, self_obj=x)
+                    except Unsupported as e:
+                        raise AnalysisError(f"{x.cls.name}.{dn} outside the evaluable sub-language: {e}")
+                    except (Raised,) + PYERR:
+                        continue  # raising is always acceptable
+                    if r is NotImplemented:
+                        continue  # Python turns it into a TypeError (no reflected operator on the right operand)
+                    if not isinstance(r, Obj):
+                        bad.setdefault(f"{kind} {dn}: result", f"{where}: returns {type(r).__name__}")
+                        continue
+                    got = nz({k: b.term for k, b in r.fields["_blocks"].items()})
+                    if want is None or got != nz(want):
+                        diff = sorted(set(got) ^ set(nz(want or {})), key=repr)[:2] or [k for k in got if got[k] != nz(want or {}).get(k)][:2]
+                        bad.setdefault(f"{kind} {dn}: value", f"{where}: the result is not the block form of the dense result (sectors {diff}: "
+                                                              f"got {[got.get(k) for k in diff]}, dense gives {[nz(want or {}).get(k) for k in diff]})")
+                    if dn.startswith("__i") and r is not x:
+                        bad.setdefault(f"{kind} {dn}: in place", f"{where}: the in-place operator returns another object")
+                    if not dn.startswith("__i") and nz({k: b.term for k, b in x.fields["_blocks"].items()}) != nz({k: v.term for k, v in L.items()}):
+                        bad.setdefault(f"{kind} {dn}: operand", f"{where}: the left operand is changed")
+        # scalars, both orders
+        for dn, fn_ in (("__mul__", lambda b: b * 2.0), ("__rmul__", lambda b: 2.0 * b), ("__truediv__", lambda b: b / 2.0), ("__neg__", lambda b: -b),
+                        ("__imul__", lambda b: b * 2.0), ("__itruediv__", lambda b: b / 2.0),
+                        ("__radd__", lambda b: 2.0 + b), ("__rsub__", lambda b: 2.0 - b), ("__rtruediv__", lambda b: 2.0 / b), ("__pow__", lambda b: b ** 2)):
+            ev = shaped_evaluator(prog)
+            x = full()
+            m = prog.lookup_method(x.cls, dn)
+            if m is None or (kind == "array" and dn in ("__radd__", "__rsub__", "__rtruediv__", "__pow__")):
+                continue
+            L = dict(x.fields["_blocks"])
+            n += 1
+            try:
+                r = ev.call(m, [] if dn == "__neg__" else [2 if dn == "__pow__" else 2.0], {}, self_obj=x)
+            except Unsupported as e:
+                raise AnalysisError(f"{x.cls.name}.{dn} outside the evaluable sub-language: {e}")
+            except (Raised,) + PYERR:
+                continue
+            if r is NotImplemented:
+                continue
+            want = {k: repr(fn_(b).term) for k, b in L.items()}
+            got = {k: repr(b.term) for k, b in r.fields["_blocks"].items()} if isinstance(r, Obj) else None
+            if got != want:
+                k0 = next(iter(want))
+                bad.setdefault(f"{kind} {dn}: scalar", f"{kind} {dn} with a scalar: block {k0} is {None if got is None else got.get(k0)}, the dense result gives {want[k0]}")
+            if dn.startswith("__i") and r is not x:
+                bad.setdefault(f"{kind} {dn}: in place", f"{kind} {dn} with a scalar returns another object")
+    ctx.need(n >= 60, f"R08.6: only {n} arithmetic cases evaluated")
+    f = prog.cls("BlockBase").methods.get("_binary_blockwise_op") or next(iter(prog.cls("BlockBase").methods.values()))
+    if not bad:
+        ctx.check(True, rid, f, f.node, "arithmetic", f"every arithmetic operator of arrays and block vectors, on operands with equal, fewer and other stored "
+                                                      f"sectors and with scalars in both orders, gives the block form of the dense result or raises; in-place "
+                                                      f"forms return their operand ({n} evaluations)")
+    for key, msg in sorted(bad.items()):
+        ctx.check(False, rid, f, f.node, key, f"arithmetic operators give the block form of the dense result or raise — witness: {msg}")
+
+
 def check_unary(prog, ctx):
     """elementwise / reduction methods map the function of the same name"""
     rid = "R08.4"
@@ -504,5 +623,10 @@ def run(prog, ctx):
     check_interface(prog, ctx)
     check_binary_keysets(prog, ctx)
     check_multiply_diagonal(prog, ctx)
-    check_operators(prog, ctx)
+    ctx.rule("R08.6", "abstract evaluation: every arithmetic operator of arrays and block vectors (operands with equal, fewer and other stored "
+             "sectors; scalars in both orders; in-place forms) gives the block form of the dense result or raises")
+    check_arithmetic(prog, ctx)
+    # the operator table reads the TEXT of the dunders (which function, which missing-block mode, `return self`): confidence only,
+    # what the operators compute is decided by R08.6 (and R08.3 for the key sets)
+    ctx.confidence(check_operators, ("R08.6", "R08.3"), "R08.4 (operator table)")
     check_unary(prog, ctx)
